@@ -114,6 +114,7 @@ def _run_group(harness, init, hist, cands, listeners):
                     out, exc = harness.execute(reg, sub)
                 except harness.HarnessError:
                     break
+                harness.adopt(reg)
                 s1 = harness.project(reg)
                 rec = {"t": "call", "call": sub, "out": out, "exc": exc, "same": s1 == s_prev, "state": s1}
                 if reg.last_ret is not None:
